@@ -161,6 +161,8 @@ func init() {
 	share("C06", "C06.16", "C07.1", "a group belongs to exactly one route: the routing function")
 	share("C06", "C06.17", "C07.4", "routes are built from all configured children")
 	share("C06", "C06.18", "C05.1", "a group is emptied only of alerts that were notified as resolved")
+	share("C02", "C02.21", "C12.2", "an edit applied in place leaves the matchers as they are: the compiled matchers the verdict uses are only rebuilt for a new id")
+	share("C15", "C15.10", "C07.2", "the interval names a route is gated by are the ones configured on that route, not an enclosing route's")
 	share("C07", "C07.13", "C16.3", "route regexps are anchored when the matcher is built")
 	share("C08", "C08.15", "C04.4", "a notification is recorded after success, so peers learn of it")
 	share("C08", "C08.16", "C04.5", "all instances use the same log key for a (group, receiver)")
